@@ -72,6 +72,33 @@ class K1Error(Exception):
     pass
 
 
+def ser_root(val):
+    """the parameter a serialize expression is about"""
+    if isinstance(val, ast.IfExp) and isinstance(val.test, ast.Compare) and isinstance(val.test.left, ast.Name):
+        return val.test.left.id
+    if isinstance(val, ast.Call) and len(val.args) == 1 and isinstance(val.args[0], ast.Name):
+        return val.args[0].id
+    return None
+
+
+def ser_shape(path, fname, e, var):
+    """_generate_serialize_expr output -> G(...) None guard | L(...) list comprehension | S serialize call"""
+    if isinstance(e, ast.IfExp):
+        if ast.unparse(e.test) != f"{var} is not None" or ast.unparse(e.orelse) != "None":
+            raise K1Error(f"{path}: {fname} serialize guard {ast.unparse(e)}")
+        return "G(" + ser_shape(path, fname, e.body, var) + ")"
+    if isinstance(e, ast.ListComp):
+        g = e.generators
+        if len(g) != 1 or g[0].ifs or g[0].is_async or not isinstance(g[0].target, ast.Name) \
+                or ast.unparse(g[0].iter) != var:
+            raise K1Error(f"{path}: {fname} serialize comprehension {ast.unparse(e)}")
+        return "L(" + ser_shape(path, fname, e.elt, g[0].target.id) + ")"
+    if isinstance(e, ast.Call) and isinstance(e.func, ast.Name) and e.func.id == "ser" and not e.keywords \
+            and len(e.args) == 1 and ast.unparse(e.args[0]) == var:
+        return "S"
+    raise K1Error(f"{path}: {fname} serialize expression {ast.unparse(e)}")
+
+
 def parse_classes(path, root_style):
     """-> {class: {"members": [...], "fields": bool, "on": bool, "alias": bool}}"""
     tree = ast.parse(open(path).read())
@@ -134,14 +161,9 @@ def parse_method(path, fn, root_style):
                 raise K1Error(f"{path}: {fn.name} argument entry {ast.unparse(v)}")
             ty, val = v.values
             ser = False
-            if isinstance(val, ast.IfExp):
-                call = val.body
-                if not (isinstance(call, ast.Call) and isinstance(call.func, ast.Name) and len(call.args) == 1
-                        and isinstance(call.args[0], ast.Name) and not call.keywords
-                        and ast.unparse(val.test) == f"{call.args[0].id} is not None"
-                        and ast.unparse(val.orelse) == "None"):
-                    raise K1Error(f"{path}: {fn.name} serialize wrapping {ast.unparse(val)}")
-                ser, pn = call.func.id, call.args[0].id
+            if isinstance(val, (ast.IfExp, ast.ListComp, ast.Call)):
+                pn = ser_root(val)
+                ser = ser_shape(path, fn.name, val, pn)
             elif isinstance(val, ast.Name):
                 pn = val.id
             else:
@@ -217,7 +239,7 @@ def k1_compare(run, sc, gen, mclasses, label):
             py, gql, emit, meth, ocls, okind, ams = fm
             mm.append({"py": py, "method": meth == "t", "cls": ocls, "emit": emit,
                        "args": [{"gql": a[0], "py": a[1], "type": a[2], "required": a[4] == "t",
-                                 "ser": ("ser" if a[5] == "t" else False)} for a in ams]})
+                                 "ser": (a[5] or False)} for a in ams]})
             want_caps = {"fields": (True, False), "iface": (True, True), "union": (False, True), "leaf": (False, False)}[okind]
             if ocls in caps and caps[ocls] != want_caps:
                 problems.append(f"{cname}.{py}: class {ocls} has (fields,on)={caps[ocls]}, model kind {okind}")
@@ -365,6 +387,8 @@ def witnesses():
         ("F15-serialize-none", [[Fs(Q("person", id="1"), Fs(C("PersonFields", "friend"), pid))]]),
         ("F15-var-collision", [[Fs(["alias", Q("p", a=1), "u"], ["alias", C("PersonFields", "x", a=5), "v"]),
                                 Fs(Q("p", a_0=3), C("PersonFields", "x", a=7))]]),
+        # regression for 3032a3a (C07's fix): list-typed serialised arguments, item by item, None item kept
+        ("F10-serialize-list", [[Fs(Q("events", at=["a", "b"], opt=[None, "c"]), pid)]]),
         (None, [[Fs(Q("person", id="1"), pid, At("PersonFields", "full_name"), Fs(C("PersonFields", "friend", since="t0"), pid))],
                 [Fs(["alias", Q("me"), "m"], C("PersonFields", "x", a=1, a_0=2)), Q("version")]]),
     ]
@@ -552,6 +576,8 @@ def judge(ctx, run, j, o):
             mreq, idl, guards, nodup, faithful = pr
             guards = [g == "t" for g in guards]
             shared_ok = shared_ok and guards[0]
+            conform = guards[1]
+            run.dist("values_conform", str(conform))
             name = f"Op{oi}"
             replay = {**base, "history": [[e for e in p["model"]] for p in hist[: oi + 1]], "kinds": [p["kind"] for p in hist[: oi + 1]],
                       "stream": meta["stream"]}
@@ -637,7 +663,7 @@ def judge(ctx, run, j, o):
             run.dist("guards", f"shared_ok={shared_ok}")
             if nodup != "t":
                 run.broken("theorem instance C14_unique_var_names_operation", f"{label}: duplicate variable names in the model's request: {replay['history']}")
-            if shared_ok and faithful != "t":
+            if shared_ok and conform and faithful != "t":
                 run.broken("theorem instance C14_doc_valid", f"{label}: no shared mutation but the model's request does not resolve to the ideal: {replay['history']}")
             if not problems:
                 run.dist("outcome", "ok")
